@@ -6,7 +6,15 @@ EXTENDS Typst, Universe
 
 CONSTANTS TIER, SEEDS, SEED
 VARIABLES mode, n
-TermU == U1 \cup AtomsU0 \cup ImgWithLatePH \cup (IF TIER = "thorough" THEN U2rSet(0) ELSE Sample(U2rSet(0), 10, SEED))
+\* the two ways of bracketing three operands under one constructor (a renderer that drops inner brackets merges them)
+Reassoc == UNION {{[k |-> kd, a |-> [k |-> kd, a |-> W("a"), b |-> W("b")], b |-> W("c")], [k |-> kd, a |-> W("a"), b |-> [k |-> kd, a |-> W("b"), b |-> W("c")]]} : kd \in AsymBinKinds}
+           \cup UNION {{[k |-> kd, q |-> <<[k |-> kd, q |-> <<W("a"), W("b")>>], W("c")>>], [k |-> kd, q |-> <<W("a"), [k |-> kd, q |-> <<W("b"), W("c")>>]>>],
+                        [k |-> kd, q |-> <<W("a"), W("b"), W("c")>>]} : kd \in SeqKinds}
+           \cup UNION {{[k |-> kd, s |-> {[k |-> kd, s |-> {W("a"), W("b")}], W("c")}], [k |-> kd, s |-> {W("a"), [k |-> kd, s |-> {W("b"), W("c")}]}],
+                        [k |-> kd, s |-> {W("a"), W("b"), W("c")}]} : kd \in SetKinds}
+           \cup UNION {{[k |-> kd, p |-> {[k |-> kd, p |-> {W("a"), W("b")}], W("c")}], [k |-> kd, p |-> {W("a"), [k |-> kd, p |-> {W("b"), W("c")}]}]} : kd \in SymStmtKinds}
+           \cup {[k |-> "Negation", a |-> [k |-> "Negation", a |-> W("a")]], [k |-> "Negation", a |-> W("a")]}
+TermU == Reassoc \cup U1 \cup AtomsU0 \cup ImgWithLatePH \cup (IF TIER = "thorough" THEN U2rSet(0) ELSE PairCoverSet(0) \cup Sample(U2rSet(0), 10, SEED))
 AllVals == {AsTerm(t) : t \in TermU} \cup (IF TIER = "thorough" THEN EnvelopeFullSet(0) ELSE EnvelopeQuickSet(0)) \cup RichEnvelopeSet(0)
 
 Init == mode = "seed" /\ n \in 0..SEEDS
